@@ -70,6 +70,8 @@ def gen_case(seed, idx):
         "close_pick": rng.random(), "close_jitter": rng.choice([0, 0, 0, 1, -1, 7]),
         "late_action": rng.choice([None, None, "register", "browse-tracked", "browse-untracked", "lookup"]), "late_at": rng.choice([0, 1, 60, 124, 126, 249, 250]),
         "second_close_after": rng.choice([5, 100, 600000]), "tail": rng.choice([20000, 7200000, 14400000]),
+        # the default configuration has a dedicated listen socket besides the respond socket (unicast=True has not)
+        "listen_socket": rng.random() < 0.6,
     }
 
 
@@ -111,7 +113,7 @@ def simulate(case, close_at, want_blocks=True):
             return None
         eng = za.engine
         t = eng._cleanup_timer
-        return [bool(za.done), bool(src["a"].transport is None or src["a"].transport.closed), bool(t is not None and not t.cancelled())]
+        return [bool(za.done), bool(all(t.closed for t in src["a"].transports)), bool(t is not None and not t.cancelled())]
 
     orig_block = sim.block
 
@@ -146,7 +148,7 @@ def simulate(case, close_at, want_blocks=True):
         cb("h", state_change.name, name)
 
     async def main(sim):
-        a = sim.make_host("A", "10.0.0.1")
+        a = sim.make_host("A", "10.0.0.1", listen_socket=bool(case.get("listen_socket")))
         b = sim.make_host("B", "10.0.0.2")
         za, zb = a.zc, b.zc
         aza = AsyncZeroconf(zc=za)
